@@ -29,9 +29,12 @@
 (*                                                                         *)
 (* Parametric in the field (operator constants).                           *)
 (***************************************************************************)
-EXTENDS Naturals, Sequences
+EXTENDS Naturals, Sequences, TLC
 
 CONSTANTS FAdd(_, _), FSub(_, _), FMul(_, _), FNeg(_), FInt(_), FInv(_)
+
+(* TLC keeps [i \in S |-> e] lazy (every application re-evaluates e): the
+   coefficient vectors built below are forced with TLCEval. *)
 
 Zero == FInt(0)
 One == FInt(1)
@@ -56,7 +59,7 @@ Degree(p) == DegRec(p, Len(p))
 
 PolySub(p, q) ==
   LET m == IF Len(p) > Len(q) THEN Len(p) ELSE Len(q)
-  IN [i \in 1..m |-> FSub(Coef(p, i - 1), Coef(q, i - 1))]
+  IN TLCEval([i \in 1..m |-> FSub(Coef(p, i - 1), Coef(q, i - 1))])
 
 \* inverse DFT over H = <w>, |H| = n: c_j = (1/n) SUM_i v_i w^(-i j)
 RECURSIVE SumTo(_, _, _)
@@ -64,20 +67,23 @@ SumTo(f, i, m) == IF i > m THEN Zero ELSE FAdd(f[i], SumTo(f, i + 1, m))
 IDFT(vals, n, w) ==
   LET winv == FInv(w)
       ninv == FInv(FInt(n))
-  IN [j \in 1..n |->
-        FMul(ninv, SumTo([i \in 1..n |-> FMul(vals[i], Pow(winv, (i - 1) * (j - 1)))], 1, n))]
+      wp == TLCEval([e \in 1..n |-> Pow(winv, e - 1)])         \* w^-(e-1)
+  IN TLCEval([j \in 1..n |->
+        FMul(ninv, SumTo(TLCEval([i \in 1..n |->
+                                   FMul(vals[i], wp[(((i - 1) * (j - 1)) % n) + 1])]), 1, n))])
 
 (* --------------------------- the prover -------------------------------- *)
 \* coefficients[i] -= b_i ; push b_i        (blinders = <<b_0, .., b_k>>)
 Blind(coeffs, blinders) ==
   LET n == Len(coeffs)
       k == Len(blinders)
-  IN [i \in 1..(n + k) |->
+  IN TLCEval([i \in 1..(n + k) |->
         IF i <= k THEN FSub(coeffs[i], blinders[i])
         ELSE IF i <= n THEN coeffs[i]
-        ELSE blinders[i - n]]
+        ELSE blinders[i - n]])
 
-BlindEvals(vals, blinders, n, w) == Blind(IDFT(vals, n, w), blinders)
+BlindEvals(vals, blinders, n, w) ==
+  LET c == TLCEval(IDFT(vals, n, w)) IN Blind(c, blinders)
 
 \* t: quotient coefficients (at least 3n of them)
 Split(t, n, b12, b13, b14) ==
@@ -85,7 +91,7 @@ Split(t, n, b12, b13, b14) ==
       mi == SubSeq(t, n + 1, 2 * n)
       hi == SubSeq(t, 2 * n + 1, 3 * n)
       fo == SubSeq(t, 3 * n + 1, Len(t))
-      subFirst(p, b) == [i \in 1..Len(p) |-> IF i = 1 THEN FSub(p[1], b) ELSE p[i]]
+      subFirst(p, b) == TLCEval([i \in 1..Len(p) |-> IF i = 1 THEN FSub(p[1], b) ELSE p[i]])
   IN [t_low |-> Append(lo, b12),
       t_mid |-> Append(subFirst(mi, b12), b13),
       t_high |-> Append(subFirst(hi, b13), b14),
@@ -94,12 +100,12 @@ Split(t, n, b12, b13, b14) ==
 \* t_low + X^n t_mid + X^2n t_high + X^3n t_fourth, coefficient by coefficient
 Recombine(sh, n) ==
   LET m == 3 * n + Len(sh.t_fourth)
-  IN [i \in 1..m |->
+  IN TLCEval([i \in 1..m |->
         LET e == i - 1 IN
         FAdd(FAdd(IF e <= n THEN Coef(sh.t_low, e) ELSE Zero,
                   IF e >= n /\ e <= 2 * n THEN Coef(sh.t_mid, e - n) ELSE Zero),
              FAdd(IF e >= 2 * n /\ e <= 3 * n THEN Coef(sh.t_high, e - 2 * n) ELSE Zero,
-                  IF e >= 3 * n THEN Coef(sh.t_fourth, e - 3 * n) ELSE Zero))]
+                  IF e >= 3 * n THEN Coef(sh.t_fourth, e - 3 * n) ELSE Zero))])
 
 (* Rounds 1-3 as far as masking is concerned.  wires: the four columns of
    wire values on H; zvals: the grand product on H; t: the quotient (computed
@@ -108,12 +114,15 @@ Recombine(sh, n) ==
 CommittedNames == << "a_comm", "b_comm", "c_comm", "d_comm", "z_comm",
                      "t_low_comm", "t_mid_comm", "t_high_comm", "t_fourth_comm" >>
 
-Round1(wires, n, w, S) ==
-  [a_comm |-> BlindEvals(wires[1], << S[1], S[2] >>, n, w),
-   b_comm |-> BlindEvals(wires[2], << S[3], S[4] >>, n, w),
-   c_comm |-> BlindEvals(wires[3], << S[5], S[6] >>, n, w),
-   d_comm |-> BlindEvals(wires[4], << S[7], S[8] >>, n, w)]
-Round2(zvals, n, w, S) == BlindEvals(zvals, << S[9], S[10], S[11] >>, n, w)
+\* (the ...C forms take the interpolated coefficient vectors = IDFT of the values)
+Round1C(wc, S) ==
+  [a_comm |-> Blind(wc[1], << S[1], S[2] >>),
+   b_comm |-> Blind(wc[2], << S[3], S[4] >>),
+   c_comm |-> Blind(wc[3], << S[5], S[6] >>),
+   d_comm |-> Blind(wc[4], << S[7], S[8] >>)]
+Round2C(zc, S) == Blind(zc, << S[9], S[10], S[11] >>)
+Round1(wires, n, w, S) == Round1C(TLCEval([c \in 1..4 |-> IDFT(wires[c], n, w)]), S)
+Round2(zvals, n, w, S) == Round2C(TLCEval(IDFT(zvals, n, w)), S)
 Round3(t, n, S) == Split(t, n, S[12], S[13], S[14])
 
 (* ------------------- what one draw is allowed to touch ------------------ *)
@@ -149,9 +158,9 @@ Unchanged(k, delta, n) ==
 
 \* dense form of a sparse polynomial, length m
 Dense(sp, m) ==
-  [i \in 1..m |->
+  TLCEval([i \in 1..m |->
      IF \E t \in 1..Len(sp) : sp[t][1] = i - 1
-     THEN sp[CHOOSE t \in 1..Len(sp) : sp[t][1] = i - 1][2] ELSE Zero]
+     THEN sp[CHOOSE t \in 1..Len(sp) : sp[t][1] = i - 1][2] ELSE Zero])
 
 \* value of a sparse polynomial at x
 RECURSIVE SparseEvalRec(_, _, _)
